@@ -180,6 +180,8 @@ def gen_ty0(rng, sch: Schema, depth: int, lower_classes: list, extras: bool):
         if t[0] in ("opt", "any", "union"):
             return t
         return ("opt", t)
+    if r < 0.485:
+        return ("lit", tuple(rng.sample([1, 2, 3, "a", "b"], 2)))
     if r < 0.50:
         return gen_bare(rng)
     if r < 0.56:
@@ -772,7 +774,12 @@ def gen_value_src(rng, t, sch: Schema, depth: int, wire: bool = False) -> str:
     if k == "dc":
         c = sch.classes[t[1]]
         dfl = c.get("defaults", {})
-        keep = [(fn, ft) for fn, ft in c["fields"] if fn not in dfl or rng.random() < 0.5]
+        if wire:
+            if "omit" not in c:        # decided once per case and class: every input of the class lacks these keys
+                c["omit"] = {fn for fn in dfl if rng.random() < 0.5}
+            keep = [(fn, ft) for fn, ft in c["fields"] if fn not in c["omit"]]
+        else:
+            keep = [(fn, ft) for fn, ft in c["fields"] if fn not in dfl or rng.random() < 0.5]
         if wire:
             return "{" + ", ".join(f"{fn!r}: " + gen_value_src(rng, ft, sch, depth - 1, True) for fn, ft in keep) + "}"
         return c["name"] + "(" + ", ".join(f"{fn}=" + gen_value_src(rng, ft, sch, depth - 1, False) for fn, ft in keep) + ")"
@@ -784,7 +791,8 @@ PREFER_CONTAINER = [False]    # probes: always exercise the container member of 
 
 def gen_union_value(rng, t, sch, depth, wire):
     if True:
-        m = rng.choice(t[1])
+        cands = [x for x in t[1] if not (NO_NONE[0] and x == ("atom", "none"))] or list(t[1])
+        m = rng.choice(cands)
         conts = [x for x in t[1] if x[0] in ("seq", "map", "tupv", "tup", "dc")]
         if conts and (PREFER_CONTAINER[0] or rng.random() < 0.5):
             m = rng.choice(conts)
@@ -1272,6 +1280,10 @@ def coq_ty(t, sch) -> str:
         return f"(TMap {MAP_ORIGINS[t[1]][2]} {coq_ty(t[2], sch)} {coq_ty(t[3], sch)})"
     if k == "dc":
         return f"(TDC {t[1]})"
+    if k == "lit":
+        if all(isinstance(x, (int, str)) and not isinstance(x, bool) for x in t[1]):
+            return "TLit"
+        raise ValueError("literal outside the model")
     if k == "union":
         return coq_union(t, sch) if WIRE_SIDE_COQ[0] else coq_union_pack(t, sch)
     raise ValueError(t)
@@ -1330,11 +1342,23 @@ def coq_union(t, sch) -> str:
     return "(TUnion [" + "; ".join(coq_ty(m, sch) for m in t[1]) + "])"
 
 
+DEFAULT_KIND = {"list": "(DFresh KList)", "set": "(DFresh KSet)", "collections.deque": "(DFresh KDeque)", "dict": "(DFresh KDict)",
+                "collections.OrderedDict": "(DFresh KOrderedDict)"}
+
+
+def coq_field(c, fn, ft, sch) -> str:
+    """decode side: a defaulted field whose key is absent from the inputs of this case is TAbsent <default>"""
+    if WIRE_SIDE_COQ[0] and fn in c.get("omit", ()):
+        d = c["defaults"][fn]
+        return "(TAbsent DAtom)" if d.startswith("=") else f"(TAbsent {DEFAULT_KIND[d]})"
+    return coq_ty(ft, sch)
+
+
 def coq_classes(sch: Schema) -> str:
     items = []
     for c in sch.classes:
         nc = sch.dialects[c["dialect"]] if c["dialect"] is not None else None
-        fields = "; ".join(coq_ty(ft, sch) for _, ft in field_order(c))
+        fields = "; ".join(coq_field(c, fn, ft, sch) for fn, ft in field_order(c))
         items.append(f"{{| c_sup := {vlib.coq_bool(c['sup'])}; c_nc := {coq_dialect(nc)}; c_fields := [{fields}] |}}")
     return "[" + "; ".join(items) + "]"
 
@@ -1779,7 +1803,8 @@ def coq_wire(w, t, sch, labels) -> str:
     if k == "dc" and isinstance(w, dict):
         lab = labels[id(w)]
         c = sch.classes[t[1]]
-        kvs = "; ".join(f"((VAtom 0), {coq_wire(w[fn], ft, sch, labels)})" for fn, ft in field_order(c))
+        kvs = "; ".join(f"((VAtom 0), {'VNone' if fn in c.get('omit', ()) and fn not in w else coq_wire(w[fn], ft, sch, labels)})"
+                        for fn, ft in field_order(c))
         return f"(VMap KDict {lab} [{kvs}])"
     if k == "opt" and w is not None:
         return coq_wire(w, t[1], sch, labels)
